@@ -123,6 +123,23 @@ Fixpoint offsets_in_range (fuel : nat) (data offs : bytes) : bool :=
       end
   end.
 
+(* independent walk over arbitrary bytes: 0 = ends cleanly, 1 = a length field exceeds the rest,
+   2 = a remainder of 1..3 bytes is reached *)
+Fixpoint naive_outcome (fuel : nat) (d : bytes) : Z :=
+  match fuel with
+  | O => (-1)%Z
+  | S f =>
+      match d with
+      | [] => 0%Z
+      | _ => if length d <? 4 then 2%Z
+             else let l := le32 d in
+                  let r := skipn 4 d in
+                  if (l =? 4294967295)%N then naive_outcome f r
+                  else if (N.of_nat (length r) <? l)%N then 1%Z
+                  else naive_outcome f (skipn (N.to_nat l) r)
+      end
+  end.
+
 Definition zget {V} (d : V) (k : Z) (m : list (Z * V)) : V :=
   match find (fun p => Z.eqb (fst p) k) m with Some p => snd p | None => d end.
 
@@ -242,12 +259,13 @@ Definition case_spec_ok (c : case) : bool :=
   (* unpack succeeds and the value returned for every TID is the token the harness put there *)
   | CBlock groups tid0 data res offsets vals =>
       Z.eqb res 0 && list_eqb obytes_eqb vals (map Some (concat groups))
-  (* Ok: every recorded offset (and the record it names) lies inside the block. A panic (res = 2)
-     is reported by the driver itself (violations.jsonl, fingerprint panic:block-unpack-short-tail);
-     it is not judged a second time here *)
+  (* the outcome is the one an independent walk over the bytes gives; Ok: every recorded offset (and
+     the record it names) lies inside the block. Outcome 2 (panic on a 1..3-byte remainder) is a
+     documented OBSERVATION about corrupted bytes, outside the property's quantifier: accepted exactly
+     where the independent walk reaches such a remainder, a panic anywhere else fails here *)
   | CUnpackRaw data res offsets =>
-      if Z.eqb res 0 then offsets_in_range (S (length offsets)) data offsets
-      else Z.eqb res 1 || Z.eqb res 2
+      Z.eqb res (naive_outcome (S (length data)) data) &&
+      (if Z.eqb res 0 then offsets_in_range (S (length offsets)) data offsets else true)
   (* value returned for TID t = the t-th token of the dictionary the harness generated *)
   | CProvider entries disk first dict eft elt ft lt calls =>
       Z.eqb ft eft && Z.eqb lt elt &&
